@@ -180,7 +180,9 @@ LITERAL_FORMS = [
 FIELD_NAMES = ["caf\u00e9", "gr\u00f6\u00dfe", "x\u03bb", "a\u00e9b", "a_\u00e9", "a\u4e2d", "z\U0001F600", "_foo", "_", "__", "a_b", "a-b", "-a", "a-", "9x", "x9", "a.b", "a b", " a", "", "\u00e9", "a\"b", "a\\b", "a\nb", "a\tb", "A", "aB1",
                "NULL", "true", "false", "let", "import", "include", "as", "select", "func", "module", "env", "self", "mod", "item", "in", "is",
                "not", "fail", "assert", "out", "convert", "map", "filter", "reduce", "constraint", "TRACE", "null", "True", "a@b", "a=b", "a,b", "a;b",
-               "a//b", "a{b", "a}b", "a(b", "a[b", "a:b", "a::b", "a|b", "a%b", "a$b", "a'b", "\U0001F600"]
+               "a//b", "a{b", "a}b", "a(b", "a[b", "a:b", "a::b", "a|b", "a%b", "a$b", "a'b", "\U0001F600",
+               # an escape and a multi-byte character in one name
+               "cl\u00e9 \"a\"", "d\u00e9\\f", "\u4e2d\"", "\\\u00fc"]
 
 
 def field_name_forms():
